@@ -16,12 +16,12 @@
 (* and prints the layout with the verdict; the harness materialises each   *)
 (* layout in a fresh directory and runs the real `bkl` binary on it.       *)
 (***************************************************************************)
-EXTENDS BklCli, Json, SequencesExt
+EXTENDS BklResolver, Json, SequencesExt
 
 CONSTANTS Family, Shard, NShards
 
-VARIABLES c, phase
-vars == <<c, phase>>
+VARIABLES c, phase, rs, labels
+vars == <<c, phase, rs, labels>>
 
 AsciiOrder == <<" ","!","\"","#","$","%","&","'","(",")","*","+",",","-",".","/",
   "0","1","2","3","4","5","6","7","8","9",":",";","<","=",">","?","@",
@@ -140,6 +140,16 @@ CasesC03 ==
   (* a diamond loads its base twice: two output documents *)
   \cup { Case(FsOf(<<Plain("a", 0, 1), Plain("a.b", 0, 2), Plain("a.c", 0, 3), WithParent("top", 0, 4, L(<<S("a.b"), S("a.c")>>))>>, <<>>),
               <<"top.yml">>, FALSE, "/", "diamond", Chains(<< <<"a", "a.b", "top">>, <<"a", "a.c", "top">> >>)) : dummy \in {1} }
+  (* the same file names in two directories: independent chains *)
+  \cup { Case( ((W \o "/dev/app.yaml") :> File(<<LayerDoc("dev/app", <<>>)>>)) @@ ((W \o "/dev/app.web." \o e) :> File(<<LayerDoc("dev/app.web", <<>>)>>))
+             @@ ((W \o "/prod/app.yaml") :> File(<<LayerDoc("prod/app", <<>>)>>)) @@ ((W \o "/prod/app.web." \o e) :> File(<<LayerDoc("prod/app.web", <<>>)>>)),
+              <<"dev/app.web." \o e, "prod/app.web." \o e>>, FALSE, "/", "samenames",
+              Chains(<< <<"dev/app", "dev/app.web">>, <<"prod/app", "prod/app.web">> >>)) : e \in {"yaml", "json", "toml"} }
+  \cup { Case( ((W \o "/dev/app.yaml") :> File(<<LayerDoc("dev/app", <<>>)>>)) @@ ((W \o "/dev/app.web.yaml") :> File(<<LayerDoc("dev/app.web", <<>>)>>))
+             @@ ((W \o "/prod/app.yaml") :> File(<<LayerDoc("prod/app", <<>>)>>)) @@ ((W \o "/prod/app.web.yaml") :> File(<<LayerDoc("prod/app.web", <<>>)>>))
+             @@ ((W \o "/top.yaml") :> File(<<LayerDoc("top", [pk \in {"$parent"} |-> L(<<S("dev/app.web"), S("prod/app.web")>>)])>>)),
+              <<"top.yaml">>, FALSE, "/", "samenamesparent",
+              Chains(<< <<"dev/app", "dev/app.web", "top">>, <<"prod/app", "prod/app.web", "top">> >>)) : dummy \in {1} }
   (* unsupported input extension, missing input *)
   \cup { Case(FsOf(<<Plain("a", 0, 1)>>, <<>>), <<inp>>, FALSE, "/", "badinput", Fails) : inp \in {"a.txt", "b.yaml", "a"} }
 
@@ -229,7 +239,12 @@ Thirds04 == { Single("$repeat", I("3")), Single("n", I("2")), Single("list", L(<
 Fmts04 == {"json", "yaml", "toml"}
 Chain2(u, e1, e2) == FsOf(<< <<"a", e1, <<Base04>> >>, <<"a.b", e2, <<u>> >> >>, <<>>)
 Chain3(u, t, e1, e2, e3) == FsOf(<< <<"a", e1, <<Base04>> >>, <<"a.b", e2, <<u>> >>, <<"a.b.c", e3, <<t>> >> >>, <<>>)
+EmptyDocBase(e1, e2, first) ==
+  FsOf(<< <<"a", e1, IF first THEN <<EmptyMap, Single("x", I("1"))>> ELSE <<Single("x", I("1")), EmptyMap>> >>,
+          <<"a.b", e2, <<Mk2("$match", EmptyMap, "y", I("2"))>> >> >>, <<>>)
 CasesC04 ==
+  {Case(EmptyDocBase(e1, e2, fst), <<"a.b." \o e2>>, FALSE, "/", "emptydoc", <<"free", EmptyDocBase("json", "json", fst), <<"a.b.json">> >>)
+     : e1 \in Fmts04, e2 \in Fmts04, fst \in BOOLEAN} \cup
   {Case(Chain2(u, e1, e2), <<"a.b." \o e2>>, FALSE, "/", "two", <<"free", Chain2(u, "json", "json"), <<"a.b.json">> >>)
      : u \in Uppers04, e1 \in Fmts04, e2 \in Fmts04}
   \cup {Case(Chain3(u, t, e1, e2, e3), <<"a.b.c." \o e3>>, FALSE, "/", "three", <<"free", Chain3(u, t, "json", "json", "json"), <<"a.b.c.json">> >>)
@@ -241,20 +256,39 @@ LawC04(cs) ==   \* FormatFree: the all-JSON writing of the same chain gives the 
 Cases == CASE Family = "C03" -> CasesC03 [] Family = "C18" -> CasesC18 [] Family = "C04" -> CasesC04
 Law(cs) == CASE Family = "C03" -> LawC03(cs) [] Family = "C18" -> LawC18(cs) [] Family = "C04" -> LawC04(cs)
 
+StartOf(cs) == RInit(cs.fs, RootAt(cs.root), [i \in DOMAIN cs.inputs |-> Abs(W, cs.inputs[i])], cs.skip)
+
 Emit(cs) ==
   LET r == RunOf(cs) IN
   PrintT("@@V " \o ToJson([family |-> Family, tag |-> cs.tag, fs |-> cs.fs, inputs |-> cs.inputs, skip |-> cs.skip,
                            root |-> cs.root, ok |-> r.ok, outs |-> IF r.ok THEN r.v.outs ELSE <<>>,
                            reads |-> IF r.ok THEN SetToSeq(r.v.reads) ELSE <<>>,
+                           steps |-> labels,
                            err |-> IF r.ok THEN "" ELSE r.err]))
 
 Mine(cs) == (Len(ToJson(cs.inputs)) + Len(ToJson(cs.expect)) + Cardinality(DOMAIN cs.fs)) % NShards = Shard
 
-Init == c \in {x \in Cases : Mine(x)} /\ phase = "new"
-Next == /\ phase = "new"
-        /\ Assert(Law(c), <<"law fails in the specification", Family, c.tag, c.inputs, c.expect, RunOf(c)>>)
-        /\ Emit(c)
-        /\ phase' = "done" /\ c' = c
+Init == /\ c \in {x \in Cases : Mine(x)} /\ phase = "new"
+        /\ rs = Settle(StartOf(c)) /\ labels = <<>>
+
+(* one reported step of the small-step resolver *)
+StepAction ==
+  /\ phase = "new" /\ rs.status = "run"
+  /\ labels' = Append(labels, NextLabel(rs))
+  /\ rs' = Settle(Step(rs))
+  /\ UNCHANGED <<c, phase>>
+
+(* the run is over: the small-step machine must agree with the function, the law must hold *)
+Finish ==
+  /\ phase = "new" /\ rs.status # "run"
+  /\ Assert(RefinesRunLayers(StartOf(c), rs), <<"the small-step resolver does not refine RunLayers", c.tag, c.inputs>>)
+  /\ Assert(Law(c), <<"law fails in the specification", Family, c.tag, c.inputs, c.expect, RunOf(c)>>)
+  /\ Emit(c)
+  /\ phase' = "done" /\ UNCHANGED <<c, rs, labels>>
+
+Next == StepAction \/ Finish
 Spec == Init /\ [][Next]_vars
 TypeOK == phase \in {"new", "done"}
+(* invariants of every intermediate state of the resolver *)
+Inv == ResolverInv(rs)
 =============================================================================
